@@ -26,13 +26,20 @@ type Res struct {
 	P   []int  `json:"p,omitempty"`
 	Err string `json:"err,omitempty"`
 }
+type GridSpec struct {
+	W       int    `json:"w"`
+	H       int    `json:"h"`
+	Blocked uint64 `json:"blocked"` // bit r*w+c set = obstacle
+	Diag    bool   `json:"diag"`
+}
 type Case struct {
-	Kind  string   `json:"kind"`
-	Adj   [][]Edge `json:"adj"`
-	H     []int64  `json:"h"`
-	Start int      `json:"start"`
-	Goal  int      `json:"goal"`
-	Impl  Res      `json:"impl"`
+	Kind  string    `json:"kind"`
+	Grid  *GridSpec `json:"grid,omitempty"` // set for grid cases: Adj and H below are its expansion
+	Adj   [][]Edge  `json:"adj"`
+	H     []int64   `json:"h"`
+	Start int       `json:"start"`
+	Goal  int       `json:"goal"`
+	Impl  Res       `json:"impl"`
 }
 
 // ---- the graph handed to astar.Find
@@ -264,7 +271,33 @@ func optimalAlternatives(c *Case) int {
 
 // ---- Coq term
 
+func implTerm(c *Case) string {
+	switch c.Impl.K {
+	case "none":
+		return "ONone"
+	case "path":
+		for _, v := range c.Impl.P {
+			if v < 0 {
+				return "OBad"
+			}
+		}
+		var pb strings.Builder
+		pb.WriteString("(OPath ")
+		for _, v := range c.Impl.P {
+			fmt.Fprintf(&pb, "(ncns %d ", v)
+		}
+		pb.WriteString("nnil")
+		pb.WriteString(strings.Repeat(")", len(c.Impl.P)+1))
+		return pb.String()
+	}
+	return "OBad"
+}
+
 func coqCase(id int, c *Case) string {
+	if c.Grid != nil {
+		return fmt.Sprintf("(mkgrid %d %d %d %d %s %d %d %s %s)", id, c.Grid.W, c.Grid.H, c.Grid.Blocked, vh.Bool(c.Grid.Diag),
+			c.Start, c.Goal, vh.Bool(consistent(c) && nonneg(c)), implTerm(c))
+	}
 	var sb strings.Builder
 	fmt.Fprintf(&sb, "(mk %d ", id)
 	for _, l := range c.Adj {
@@ -284,28 +317,7 @@ func coqCase(id int, c *Case) string {
 	}
 	sb.WriteString("znil")
 	sb.WriteString(strings.Repeat(")", len(c.H)))
-	impl := "OBad"
-	switch c.Impl.K {
-	case "none":
-		impl = "ONone"
-	case "path":
-		ok := true
-		for _, v := range c.Impl.P {
-			if v < 0 {
-				ok = false
-			}
-		}
-		if ok {
-			var pb strings.Builder
-			pb.WriteString("(OPath ")
-			for _, v := range c.Impl.P {
-				fmt.Fprintf(&pb, "(ncns %d ", v)
-			}
-			pb.WriteString("nnil")
-			pb.WriteString(strings.Repeat(")", len(c.Impl.P)+1))
-			impl = pb.String()
-		}
-	}
+	impl := implTerm(c)
 	fmt.Fprintf(&sb, " %d %d %s %s)", c.Start, c.Goal, vh.Bool(consistent(c) && nonneg(c)), impl)
 	return sb.String()
 }
@@ -361,7 +373,7 @@ func gridCase(w, h int, blocked uint, start, goal int, diag bool) Case {
 	if diag {
 		kind += "d"
 	}
-	return Case{Kind: kind, Adj: adj, H: hs, Start: start, Goal: goal}
+	return Case{Kind: kind, Grid: &GridSpec{W: w, H: h, Blocked: uint64(blocked), Diag: diag}, Adj: adj, H: hs, Start: start, Goal: goal}
 }
 
 func randGraph(rng *vh.RNG) Case {
@@ -546,11 +558,17 @@ func allGrid(out *vh.Out, w, h int, diag bool) {
 	}
 }
 
+const header = "From MV Require Import Lib.ListX C20.AstarModel C20.AstarRun."
+
 func main() {
 	f := vh.ParseFlags()
 	if f.Replay != "" {
 		var c Case
 		vh.LoadReplayCase(f.Replay, &c)
+		if c.Grid != nil { // the expansion is recomputed from the specification
+			g := gridCase(c.Grid.W, c.Grid.H, uint(c.Grid.Blocked), c.Start, c.Goal, c.Grid.Diag)
+			c.Adj, c.H = g.Adj, g.H
+		}
 		want := c.Impl
 		runImpl(&c)
 		v := monitor(&c)
@@ -561,22 +579,21 @@ func main() {
 		}
 		return
 	}
-	out := vh.NewOut(f.Out, "astar", "From MV Require Import Lib.ListX C20.AstarModel C20.AstarRun.", "case", "mismatches", f.Seed,
-		"every obstacle layout of the 3x3 grid (4-neighbour, unit cost, Manhattan heuristic) with every free start/goal pair; quick: random sample of 3x4 layouts and of 3x3 8-neighbour (10/14 costs, octile heuristic) layouts, thorough: all of them; random directed/undirected graphs of 2..200 nodes, integer costs 0..50, heuristics zero/exact/shifted/landmark (consistent) and random/weighted (inconsistent, separate stream); non-trivial = consistent heuristic, returned path has >= 3 nodes and the instance has >= 2 minimum-cost paths; distinct by hash of the whole case")
-	rng := vh.NewRNG(f.Seed)
-	for _, c := range corpus() {
-		c := c
-		record(out, &c)
-	}
 	thorough := f.Tier == "thorough"
-	allGrid(out, 3, 3, false)
+	rng := vh.NewRNG(f.Seed)
+
+	// ---- sub-harness "grid"
+	grid := vh.NewOut(f.Out, "grid", header, "case", "mismatches", f.Seed,
+		"every obstacle layout of the 3x3 grid (4-neighbour, unit cost, Manhattan heuristic) with every free start/goal pair; quick: random sample of 3x4 / 4x3 layouts and of 8-neighbour (10/14 costs, octile heuristic) layouts, thorough: all 3x4 and all 3x3 8-neighbour layouts with every pair; separate malformed stream: start or goal on an obstacle; non-trivial = returned path has >= 3 nodes and the instance has >= 2 minimum-cost paths; distinct by hash of the whole case")
+	grid.PerShard = 1500
+	allGrid(grid, 3, 3, false)
 	if thorough {
-		allGrid(out, 4, 3, false)
-		allGrid(out, 3, 3, true)
+		allGrid(grid, 4, 3, false)
+		allGrid(grid, 3, 3, true)
 	}
-	nGrid, nRand := 1500, 1500
+	nGrid, nRand := 2000, 1200
 	if thorough {
-		nGrid, nRand = 6000, 30000
+		nGrid, nRand = 20000, 24000
 	}
 	if f.N > 0 {
 		nRand = f.N
@@ -599,17 +616,35 @@ func main() {
 			b &= uint(cr.U64()) // sparser obstacles
 		}
 		s, g := cr.Intn(n), cr.Intn(n)
+		if !cr.Chance(1, 12) { // mostly free endpoints
+			for k := 0; k < n && b&(1<<uint(s)) != 0; k++ {
+				s = (s + 1) % n
+			}
+			for k := 0; k < n && b&(1<<uint(g)) != 0; k++ {
+				g = (g + 5) % n
+			}
+		}
 		c := gridCase(w, h, b, s, g, diag)
 		if b&(1<<uint(s)) != 0 || b&(1<<uint(g)) != 0 {
-			out.Malformed() // start or goal on an obstacle
+			grid.Malformed() // start or goal on an obstacle
 			c.Kind += "-blocked-endpoint"
 		}
-		record(out, &c)
+		record(grid, &c)
+	}
+	grid.Close()
+
+	// ---- sub-harness "graph"
+	graph := vh.NewOut(f.Out, "graph", header, "case", "mismatches", f.Seed,
+		"corpus (start = goal, unreachable goal, ties, zero-cost cycle, duplicate neighbours, self loop, late cheaper route, inconsistent heuristic) + random directed/undirected graphs of 2..200 nodes, integer costs 0..50 (exact in float64), heuristics zero / exact / shifted / landmark (consistent when the check says so) and random / weighted (inconsistent: separate stream, only validity and reachability are claimed); non-trivial = consistent heuristic, returned path has >= 3 nodes and the instance has >= 2 minimum-cost paths; distinct by hash of the whole case")
+	graph.PerShard = 100
+	for _, c := range corpus() {
+		c := c
+		record(graph, &c)
 	}
 	for i := 0; i < nRand; i++ {
 		cr, _ := rng.Derive()
 		c := randGraph(cr)
-		record(out, &c)
+		record(graph, &c)
 	}
-	out.Close()
+	graph.Close()
 }
